@@ -25,7 +25,7 @@ def replay_cases(ctx, pool, recs, tag="d"):
 
 
 def run(ctx):
-    ctx.rule = ("every set of up to MaxRules entries of a 30-entry pool: hosts lines (IPv4, IPv6, IPv4-mapped, two names with comment, "
+    ctx.rule = ("every set of up to MaxRules entries of a 33-entry pool: hosts lines (IPv4, IPv6, IPv4-mapped, two names with comment, "
                 "bare domain, entries for a hostname that genuinely collides under djb2), DNS-applicable network rules (block, exception, "
                 "important both ways, $dnsrewrite, $badfilter twin, $dnstype, $client, $ctag, $denyallow, one-sided content type) and "
                 "browser-only rules that would match if loaded ($match-case, $~third-party, $domain=~x, @@$document, two-sided content "
@@ -38,6 +38,8 @@ def run(ctx):
     pool = os.path.join(ctx.work, "dnspool.ndjson")
     ps = ctx.vh(["dns-pool", "out=" + pool])
     ctx.extra["pool"] = ps["note"]
+    for pm in ps.get("parse_mismatch") or []:
+        ctx.report(pm, {"reexec": ["dns-pool"], "what": pm}, {"cause": "hosts-line-parse"})
     r = ctx.tlc("MC_DNSEngine", CFG % (3 if ctx.tier == "quick" else 5), files={"dnspool.ndjson": pool}, timeout=2400)
     recs = [x for x in r.records if x.get("kind") == "CASE"]
     s, mism = replay_cases(ctx, pool, recs)
